@@ -14,7 +14,7 @@ import (
 
 func init() {
 	register(&Property{
-		ID:  "C06", Technique: "interprocedural length-provenance dataflow over go/ssa for every decoder input; use-after-Put and hand-over path rules",
+		ID: "C06", Technique: "interprocedural length-provenance dataflow over go/ssa for every decoder input; use-after-Put and hand-over path rules",
 		Run: runC06,
 		Explain: an.Explanation{
 			Text: "Decides the structural clause of C06: every byte slice that reaches the DNS decoder " +
@@ -53,13 +53,13 @@ var readCountFuncs = map[string]bool{
 
 // freshFuncs produce a new slice holding exactly the produced bytes.
 var freshFuncs = map[string]bool{
-	"io.ReadAll":                              true,
+	"io.ReadAll": true,
 	"(*encoding/base64.Encoding).DecodeString": true,
-	"(*github.com/miekg/dns.Msg).Pack":        true,
-	"(*github.com/miekg/dns.Msg).PackBuffer":  true,
-	"bytes.Clone":                             true,
-	"slices.Clone":                            true,
-	"(*bytes.Buffer).Bytes":                   true,
+	"(*github.com/miekg/dns.Msg).Pack":         true,
+	"(*github.com/miekg/dns.Msg).PackBuffer":   true,
+	"bytes.Clone":                              true,
+	"slices.Clone":                             true,
+	"(*bytes.Buffer).Bytes":                    true,
 }
 
 type c06leaf struct {
